@@ -24,7 +24,7 @@ func init() {
 			"R02d kind dispatch is exhaustive: every constant of the kind type is a case of the ParseNode dispatch, or is the template kind, which the validator replaces by its expansion before hashing. " +
 			"R02e template expansion copies: a declaration looked up by a non-constant name in the template table is used only as the receiver of the deep copy. " +
 			"R02f numeric casts are decimal/64-bit: the strconv.Parse* calls of the type-cast table take constant base 10 and bit size 64. " +
-			"R02g the result cache lives for one record only (= C10 R10a).",
+			"R02g the result cache lives for one record only (= C10 R10a). R02h the custom_func parameter cursor advances by one on every path round the argument loop (positional pairing). R02i in object/array evaluators a child value is handed only to the normalise-and-save function (per-child keep_empty_or_null / omission).",
 		NotDecided: "xpath anchoring semantics, trimming and casting of values, custom-function argument values and zero-value substitution, keep_empty_or_null behaviour — everything that needs the value of an evaluation.",
 		Trusted:    append([]string{"encoding/json; sort.Slice sorts by the given less function"}, commonTrusted...),
 		Run:        runC02,
@@ -46,6 +46,14 @@ func init() {
 	control(Control{ID: "c02-template-shared", Prop: "C02", File: "extensions/omniv21/transform/validate.go",
 		Old: "\tdeclNew := templateDecl.deepCopy()", New: "\tdeclNew := templateDecl",
 		Rule: "R02e", Substr: "validateTemplate", Why: "two reference sites share (and overwrite) one template object"})
+	control(Control{ID: "c02-arg-cursor-skips", Prop: "C02", File: "extensions/omniv21/transform/invokeCustomFunc.go",
+		Old:  "\t\tif val == nil {\n\t\t\targVals = append(argVals, reflect.Zero(getFuncArgType(fnType, fnArgIndex)))\n\t\t} else {\n\t\t\targVals = append(argVals, reflect.ValueOf(val))\n\t\t}\n\t\tfnArgIndex++",
+		New:  "\t\tif val == nil {\n\t\t\targVals = append(argVals, reflect.Zero(getFuncArgType(fnType, fnArgIndex)))\n\t\t\tcontinue\n\t\t}\n\t\targVals = append(argVals, reflect.ValueOf(val))\n\t\tfnArgIndex++",
+		Rule: "R02h", Substr: "prepArgValues", Why: "absent argument does not advance the parameter cursor"})
+	control(Control{ID: "c02-array-drops-null", Prop: "C02", File: "extensions/omniv21/transform/parse.go",
+		Old:  "\t\t\t_ = normalizeAndSaveValue(childDecl, childValue, func(normalizedValue interface{}) {\n\t\t\t\tarray = append(array, normalizedValue)\n\t\t\t})",
+		New:  "\t\t\tif childValue != nil {\n\t\t\t\tarray = append(array, childValue)\n\t\t\t}",
+		Rule: "R02i", Substr: "parseArray", Why: "keep_empty_or_null elements vanish from arrays"})
 	control(Control{ID: "c02-int-cast-base0", Prop: "C02", File: "extensions/omniv21/transform/value.go",
 		Old: "strconv.ParseInt(v.(string), 10, 64)", New: "strconv.ParseInt(v.(string), 0, 64)",
 		Rule: "R02f", Substr: "ParseInt", Why: "type int cast of \"010\" yields 8"})
@@ -67,6 +75,10 @@ func runC02(c *core.Ctx) {
 	c02Casts(c, r)
 	c10FreshCtx(c, "R02g")
 	c.Floor("R02g", 3, "fresh context per record")
+	c02Positional(c, r)
+	c.Floor("R02h", 1, "fnArgIndex in prepArgValues")
+	c02ChildrenThroughNormaliser(c, r)
+	c.Floor("R02i", 2, "object members and array elements")
 }
 
 // listField: the unexported []*Decl field of Decl (evaluation order list).
@@ -127,25 +139,7 @@ func c02Order(c *core.Ctx, r *c13roles) {
 			}
 		}
 		// sorted?
-		sorted := token.NoPos
-		for _, g := range append([]*ssa.Function{f}, f.AnonFuncs...) {
-			_ = g
-		}
-		for _, ci := range core.Calls(f) {
-			o := core.CalleeObj(ci)
-			if o == nil || o.Pkg() == nil || o.Pkg().Path() != "sort" || !(o.Name() == "Slice" || o.Name() == "SliceStable" || o.Name() == "Sort" || o.Name() == "Stable") {
-				continue
-			}
-			for _, a := range ci.Common().Args {
-				if steps, _ := core.TraceAddr(core.Unwrap(a, true)); len(steps) > 0 {
-					for _, s := range steps {
-						if s.Kind == "field" && s.Field == list {
-							sorted = core.InstrPos(ci)
-						}
-					}
-				}
-			}
-		}
+		sorted := sortsListField(f, list, 0)
 		switch {
 		case overMap && !overSlice:
 			c.Check(sorted.IsValid(), "R02a", key, fillPos, "filled from a map range and sorted afterwards (deterministic member order)",
@@ -191,11 +185,17 @@ func c02Normalise(c *core.Ctx, r *c13roles) {
 	evals := map[*ssa.Function]bool{}
 	for _, ci := range core.Calls(r.parseNode) {
 		cf := ci.Common().StaticCallee()
-		if cf == nil || core.FuncPkg(cf) != r.tp || cf.Signature.Recv() == nil || cf == r.parseNode {
+		if cf == nil || core.FuncPkg(cf) != r.tp || cf == r.parseNode {
 			continue
 		}
 		rs := cf.Signature.Results()
-		if rs.Len() == 2 && isEmptyIface(rs.At(0).Type()) && isErrorT(rs.At(1).Type()) {
+		takesDecl := false
+		for _, p := range cf.Params {
+			if core.NamedOf(p.Type()) == r.declT {
+				takesDecl = true
+			}
+		}
+		if takesDecl && rs.Len() == 2 && isEmptyIface(rs.At(0).Type()) && isErrorT(rs.At(1).Type()) {
 			evals[cf] = true
 		}
 	}
@@ -204,7 +204,7 @@ func c02Normalise(c *core.Ctx, r *c13roles) {
 	for changed := true; changed; {
 		changed = false
 		for f := range evals {
-			dels := delegates(f, r)
+			dels := delegates(f, r, norm)
 			if len(dels) == 0 {
 				continue
 			}
@@ -224,7 +224,7 @@ func c02Normalise(c *core.Ctx, r *c13roles) {
 	sort.Slice(es, func(i, j int) bool { return core.FuncKey(es[i]) < core.FuncKey(es[j]) })
 	for _, f := range es {
 		var declParam *ssa.Parameter
-		for _, p := range f.Params[1:] {
+		for _, p := range f.Params {
 			if core.NamedOf(p.Type()) == r.declT {
 				declParam = p
 			}
@@ -515,7 +515,7 @@ func c02Casts(c *core.Ctx, r *c13roles) {
 
 // delegates: if every non-error-only return of f hands back the whole result tuple of a call to another context method
 // with the same result signature, returns those callees (f is a dispatcher); otherwise nil.
-func delegates(f *ssa.Function, r *c13roles) []*ssa.Function {
+func delegates(f *ssa.Function, r *c13roles, norm *ssa.Function) []*ssa.Function {
 	var out []*ssa.Function
 	seen := map[*ssa.Function]bool{}
 	for _, b := range f.Blocks {
@@ -537,7 +537,7 @@ func delegates(f *ssa.Function, r *c13roles) []*ssa.Function {
 				return nil
 			}
 			cf := call.Call.StaticCallee()
-			if cf == nil || core.FuncPkg(cf) != r.tp || cf.Signature.Recv() == nil || cf == f {
+			if cf == nil || core.FuncPkg(cf) != r.tp || cf == f || cf == norm {
 				return nil
 			}
 			rs := cf.Signature.Results()
@@ -585,6 +585,205 @@ func delegatedFrom(f, g *ssa.Function, d int) bool {
 			continue
 		}
 		if cf == g || delegatedFrom(cf, g, d+1) {
+			return true
+		}
+	}
+	return false
+}
+
+// ---------------------------------------------------------------- R02h / R02i (added after seeds C02-4, C02-6)
+
+// c02Positional (R02h): in the evaluation-path function that walks custom_func argument declarations, every loop-carried
+// integer that is handed to a repository call inside the loop (the parameter cursor) advances by exactly one on every
+// path round the loop — an iteration that skips the increment shifts all later absent-argument zero values to the wrong
+// parameter type.
+func c02Positional(c *core.Ctx, r *c13roles) {
+	n := 0
+	for _, f := range evalPath(r) {
+		// does f range over CustomFuncDecl.Args?
+		walksArgs := false
+		for _, b := range f.Blocks {
+			for _, in := range b.Instrs {
+				if fa, ok := in.(*ssa.FieldAddr); ok && core.FieldOwner(fa) != nil && types.Identical(core.FieldOwner(fa), r.cfT) && isSliceOfDecl(core.FieldOfAddr(fa).Type(), r.declT) {
+					walksArgs = true
+				}
+			}
+		}
+		if !walksArgs {
+			continue
+		}
+		for _, b := range f.Blocks {
+			for _, in := range b.Instrs {
+				phi, ok := in.(*ssa.Phi)
+				if !ok || !isInt(phi.Type()) {
+					continue
+				}
+				// used as an argument of a repository call?
+				usedAsCursor := false
+				for _, u := range core.Referrers(phi) {
+					if ci, ok := u.(ssa.CallInstruction); ok {
+						if cf := ci.Common().StaticCallee(); cf != nil && core.InRepo(core.FuncPkg(cf)) {
+							usedAsCursor = true
+						}
+					}
+				}
+				if !usedAsCursor {
+					continue
+				}
+				n++
+				key := core.FuncKey(f) + " parameter cursor"
+				okAll := true
+				for i, e := range phi.Edges {
+					pred := b.Preds[i]
+					if !b.Dominates(pred) {
+						continue // entry edge
+					}
+					bo, isBo := e.(*ssa.BinOp)
+					if !(isBo && bo.Op == token.ADD && bo.X == ssa.Value(phi) && isConstInt(bo.Y, 1)) {
+						okAll = false
+					}
+				}
+				c.Check(okAll, "R02h", key, phi.Pos(), "the cursor advances by one on every path round the argument loop",
+					"an iteration of the argument loop can reach the next one without advancing the parameter cursor: arguments are no longer paired positionally with the function's parameters")
+			}
+		}
+	}
+	if n == 0 {
+		c.Unresolved("R02h", "custom_func parameter cursor", "no loop-carried cursor found in the function that walks CustomFuncDecl.Args")
+	}
+}
+
+func isConstInt(v ssa.Value, k int64) bool {
+	cst, ok := v.(*ssa.Const)
+	if !ok || cst.Value == nil {
+		return false
+	}
+	i, ok := constant.Int64Val(cst.Value)
+	return ok && i == k
+}
+
+// c02ChildrenThroughNormaliser (R02i): in the composite evaluators, the value obtained for a child declaration from
+// ParseNode is used only as the value argument of the normalise-and-save function (whose callback performs the store
+// into the parent container): the documented keep_empty_or_null / omission rules are applied per child, for objects
+// and arrays alike.
+func c02ChildrenThroughNormaliser(c *core.Ctx, r *c13roles) {
+	var normSave *ssa.Function
+	for _, f := range c.RepoFunctions() {
+		if core.FuncPkg(f) != r.tp || f.Signature.Recv() != nil || f.Parent() != nil {
+			continue
+		}
+		ps := f.Signature.Params()
+		if ps.Len() == 3 && core.NamedOf(ps.At(0).Type()) == r.declT && isEmptyIface(ps.At(1).Type()) {
+			if _, isFn := ps.At(2).Type().Underlying().(*types.Signature); isFn {
+				normSave = f
+			}
+		}
+	}
+	if normSave == nil {
+		c.Unresolved("R02i", "normalise-and-save function", "no function (decl *Decl, v interface{}, save func(interface{})) in package transform")
+		return
+	}
+	n := 0
+	for _, f := range evalPath(r) {
+		if f == r.parseNode || f.Parent() != nil {
+			continue
+		}
+		// composite evaluators: functions that walk the evaluation-order list of a declaration
+		list := c02ListField(r)
+		walksList := false
+		for _, b := range f.Blocks {
+			for _, in := range b.Instrs {
+				if fa, ok := in.(*ssa.FieldAddr); ok && core.FieldOfAddr(fa) == list {
+					walksList = true
+				}
+			}
+		}
+		if !walksList {
+			continue
+		}
+		for _, ci := range core.Calls(f) {
+			if ci.Common().StaticCallee() != r.parseNode {
+				continue
+			}
+			call, ok := ci.(*ssa.Call)
+			if !ok || !blockOnCycle(call.Block()) {
+				continue // only children evaluated in a loop (object members, array elements)
+			}
+			for _, u := range core.Referrers(call) {
+				ex, ok := u.(*ssa.Extract)
+				if !ok || ex.Index != 0 {
+					continue
+				}
+				n++
+				key := core.FuncKey(f) + " child value"
+				bad := ""
+				for _, u2 := range core.Referrers(ex) {
+					switch x := u2.(type) {
+					case *ssa.DebugRef:
+					case ssa.CallInstruction:
+						if !(x.Common().StaticCallee() == normSave && len(x.Common().Args) == 3 && x.Common().Args[1] == ssa.Value(ex)) {
+							bad = "passed to " + core.Rel(x.Common().String())
+						}
+					case *ssa.MakeClosure:
+						// captured by the save callback: allowed only if that closure is the callback itself — a value captured
+						// by a closure is stored outside the normaliser
+						bad = "captured by a closure"
+					default:
+						bad = fmt.Sprintf("used by %T", u2)
+					}
+				}
+				c.Check(bad == "", "R02i", key, core.InstrPos(call), "the child's value is only handed to "+core.FuncKey(normSave),
+					"a child value is stored into its parent container without the per-child normalisation ("+bad+"): keep_empty_or_null / omission are not applied to it")
+			}
+		}
+	}
+	if n == 0 {
+		c.Unresolved("R02i", "child evaluations", "no ParseNode call inside a loop found in the composite evaluators")
+	}
+}
+
+// sortsListField: f (or a static repository callee, depth <= 2) calls sort.Slice/SliceStable/Sort/Stable on a value that
+// derives from the given list field. Returns the position of the sort call.
+func sortsListField(f *ssa.Function, list *types.Var, depth int) token.Pos {
+	if depth > 2 || f.Blocks == nil {
+		return token.NoPos
+	}
+	for _, ci := range core.Calls(f) {
+		o := core.CalleeObj(ci)
+		if o != nil && o.Pkg() != nil && o.Pkg().Path() == "sort" && (o.Name() == "Slice" || o.Name() == "SliceStable" || o.Name() == "Sort" || o.Name() == "Stable") {
+			for _, a := range ci.Common().Args {
+				if steps, _ := core.TraceAddr(core.Unwrap(a, true)); len(steps) > 0 {
+					for _, s := range steps {
+						if s.Kind == "field" && s.Field == list {
+							return core.InstrPos(ci)
+						}
+					}
+				}
+			}
+			continue
+		}
+		if cf := ci.Common().StaticCallee(); cf != nil && cf != f && core.InRepo(core.FuncPkg(cf)) && !reachesStatic(cf, f, 0, map[*ssa.Function]bool{}) {
+			// a helper (not the recursive validator) that sorts the list of the declaration it is handed
+			if p := sortsListField(cf, list, depth+1); p.IsValid() {
+				return core.InstrPos(ci)
+			}
+		}
+	}
+	return token.NoPos
+}
+
+// reachesStatic: g (transitively, through static repository callees) calls target.
+func reachesStatic(g, target *ssa.Function, d int, seen map[*ssa.Function]bool) bool {
+	if d > 6 || seen[g] || g.Blocks == nil {
+		return false
+	}
+	seen[g] = true
+	for _, ci := range core.Calls(g) {
+		cf := ci.Common().StaticCallee()
+		if cf == nil {
+			continue
+		}
+		if cf == target || (core.InRepo(core.FuncPkg(cf)) && reachesStatic(cf, target, d+1, seen)) {
 			return true
 		}
 	}
